@@ -169,7 +169,8 @@ def wire_int(eng, st, reads, off, width):
     v = Lin.const(0)
     for d, _ in octs[off:off + width]:
         v = v.scale(256) + d
-    return v
+    import layout
+    return layout.canonical_value(eng, st, v)
 
 
 class AvpHeaderView:
@@ -183,8 +184,10 @@ class AvpHeaderView:
         if octs is None or len(octs) < 6:
             return
         self.ok = True
+        import layout
         self.o1, self.o1src = octs[0]
-        self.o2 = octs[1][0]
+        self.o1 = layout.canonical_value(eng, st, self.o1)
+        self.o2 = layout.canonical_value(eng, st, octs[1][0])
         q, _r = eng.divmod_const(st, self.o1, 64)
         self.total = q.scale(256) + self.o2          # the 10-bit Length field
         self.vendor = wire_int(eng, st, top_reads, 2, 2)
